@@ -205,14 +205,17 @@ def forwardStmt (c : CryptoOps) (kv : KeyView) (sch : Schema) (s : Stmt) (rnd : 
 inductive Fmt | text | binary
 deriving DecidableEq, Repr
 
-/-- `pgBoundValue.GetData` for an `OnlyEncryption` setting without integer data type -/
+/-- `pgBoundValue.GetData` for an `OnlyEncryption` setting without integer data type: text that is not escaped
+bytea (`ErrDecodeOctalString`) is processed as it is (the `fix:` commit 8c178a7 – `GetData` returns its OWN copy
+`p.data` there, whatever `DecodeEscaped` hands back next to the error); a hex error is returned -/
 def getData (fmt : Fmt) (data : Bytes) : Option Bytes :=
   match fmt with
   | .binary => some data
   | .text =>
     match decodeEscaped data with
     | .ok b => some b
-    | _ => none
+    | .octalErr => some data
+    | .hexErr => none
 
 /-- `pgBoundValue.SetData` → `setEncryptedData` -/
 def setData (s : ColSetting) (fmt : Fmt) (nd : Bytes) : Bytes :=
